@@ -976,6 +976,107 @@ func scenCloseHeartbeatParked(o *hlib.Out) {
 	emit(o, "session-heartbeat-parked", true, "", e.viol, e.info)
 }
 
+// S13: a pooled connection is closed because it exceeded gocql.TimeoutLimit (Conn.handleTimeout), one
+// of the causes of "a connection reported closed": it must be removed from its pool and replaced.
+// Systematic: TimeoutLimit = 1, NumConns 1 and 2, EXECUTEs left unanswered until connections close.
+func scenTimeoutLimit(o *hlib.Out, numConns int) {
+	old := gocql.TimeoutLimit
+	gocql.TimeoutLimit = 1
+	defer func() { gocql.TimeoutLimit = old }()
+	var hold int32 = 0
+	e, err := newSessEnv(fmt.Sprintf("timeout-limit-%dconn", numConns), 1, numConns, func(cfg *gocql.ClusterConfig, e *sessEnv) {
+		cfg.Timeout = 150 * time.Millisecond
+		cfg.RetryPolicy = nil
+		for _, nd := range e.nodes {
+			nd := nd
+			nd.AddRule(node.Rule{Match: node.MatchStatement("FROM kv", node.OpExecute), Do: func(c *node.ServerConn, req *node.Request) {
+				if atomic.LoadInt32(&hold) == 1 {
+					return // never answered: the request times out on the driver's side
+				}
+				nd.Default(c, req)
+			}})
+		}
+	})
+	if err != nil {
+		e.v("harness", "", "NewSession: %v", err)
+		emit(o, "session-timeout-limit", false, "", e.viol, e.info)
+		e.done()
+		return
+	}
+	defer e.done()
+	if err := queryOnce(e.s); err != nil {
+		e.v("harness", "", "warm-up query failed: %v", err)
+	}
+	poolLinksClosed := func() int {
+		n := 0
+		for _, nd := range e.nodes {
+			for _, c := range nd.Conns() {
+				if len(c.Registered()) == 0 && c.Link().ClientClosed() {
+					n++
+				}
+			}
+		}
+		return n
+	}
+	atomic.StoreInt32(&hold, 1)
+	timeouts := 0
+	for i := 0; i < 3*numConns+2 && poolLinksClosed() == 0; i++ {
+		if err := queryOnce(e.s); err != nil {
+			timeouts++
+		}
+	}
+	atomic.StoreInt32(&hold, 0)
+	e.net.WaitFor(2*time.Second, func() bool { return poolLinksClosed() > 0 })
+	closedByLimit := poolLinksClosed()
+	e.info["request_timeouts"] = timeouts
+	e.info["conns_closed_by_timeout_limit"] = closedByLimit
+	if closedByLimit == 0 {
+		e.v("timeout-limit-not-applied", "", "%d unanswered requests with TimeoutLimit=1 closed no connection", timeouts)
+	}
+	// removed and replaced: the pool is back at its size and owns exactly the open transports
+	var open, owned, pooled int
+	var which []string
+	settled := func() bool {
+		open, which = openClientEnds(e.net)
+		pooled = 0
+		for _, n := range gocql.VerifC17SessionPools(e.s) {
+			pooled += n
+		}
+		owned = pooled + 1 // + the control connection
+		return open == owned && pooled == numConns
+	}
+	dl := time.Now().Add(4 * time.Second)
+	for !settled() && time.Now().Before(dl) {
+		time.Sleep(5 * time.Millisecond)
+	}
+	e.info["open_after_limit"] = open
+	e.info["pooled_after_limit"] = pooled
+	if owned > open {
+		e.v("closed-conn-in-pool", "", "after a connection was closed for exceeding TimeoutLimit the pools count %d connection(s) but only %d pool transport(s) are open (%s): the closed connection was not removed from its pool",
+			pooled, open-1, strings.Join(which, " "))
+	} else if pooled < numConns {
+		e.v("closed-conn-not-replaced", "", "after a connection was closed for exceeding TimeoutLimit the pool holds %d of %d connections 4 s later", pooled, numConns)
+	}
+	failed := 0
+	var lastErr error
+	for i := 0; i < 2*numConns+1; i++ {
+		if err := queryOnce(e.s); err != nil {
+			failed++
+			lastErr = err
+		}
+	}
+	if failed > 0 {
+		e.v("query-fails-after-timeout-close", "", "%d of %d queries failed after the timed-out connection should have been replaced (last error: %v)", failed, 2*numConns+1, lastErr)
+	}
+	if !e.closeWatch(10 * time.Second) {
+		e.v("close-never-returns", "", "Close did not return within 10 s")
+		emit(o, "session-timeout-limit", true, "", e.viol, e.info)
+		return
+	}
+	e.afterClose()
+	emit(o, "session-timeout-limit", closedByLimit > 0, "", e.viol, e.info)
+}
+
 func runSessions(o *hlib.Out) {
 	rng := o.Rng
 	reps := 1
@@ -1001,6 +1102,8 @@ func runSessions(o *hlib.Out) {
 		scenAddHostDuringClose(o)
 		scenCloseHeartbeatParked(o)
 		scenRemoveEmptyPool(o, false)
+		scenTimeoutLimit(o, 1)
+		scenTimeoutLimit(o, 2)
 		scenFailedConnects(o, rng, "auth")
 		scenFailedConnects(o, rng, "startup")
 		scenFailedConnects(o, rng, "use")
